@@ -202,6 +202,12 @@ def run(ctx):
                 continue
             per_static.setdefault(a["static"], []).append((b, a))
     for sname, accs in sorted(per_static.items()):
+        decl = [s_ for c in prog.crates.values() for s_ in c["statics"] if s_["path"] == sname]
+        if all(a.get("thread_local") for b, a in accs) and (not decl or decl[0].get("thread_local")):
+            # one copy per thread, every access goes through the thread-local address: no other thread can name it
+            ctx.ob("R2", "thread-local(%s)" % sname.split("::")[-1], True, "",
+                   "%d access(es), all through the thread-local address: confined to the accessing thread by construction" % len(accs))
+            continue
         nonatomic = [(b, a) for b, a in accs if not a.get("atomic") and a["kind"] in ("read", "write")]
         inT = [(b, a) for b, a in nonatomic if b.path in T]
         inM = [(b, a) for b, a in nonatomic if b.path in M]
